@@ -320,91 +320,9 @@ Definition dur_tail (P : prec) (c : Z) (sectext : list N) : list N :=
 
 Definition sign_text (c : Z) : list N := if c <? 0 then [c_minus] else [].
 
-Theorem dur_print_ok P R c : rep2 R -> fits R c = true -> c <> 0 ->
-  (R = I32 -> Z.quot c (unit_ticks P 86400) <> -2147483648) ->
-  let u1 := unit_ticks P 86400 in let u2 := unit_ticks P 3600 in let u3 := unit_ticks P 60 in let u4 := unit_ticks P 1 in
-  let r1 := Z.rem c u1 in let r2 := Z.rem r1 u2 in let r3 := Z.rem r2 u3 in
-  let q4 := Z.quot r3 u4 in let r4 := Z.rem r3 u4 in
-  exists sectext, dur_print P R c = Ok (sign_text c ++ [c_P] ++ dur_tail P c sectext) /\
-    (sub_second P = false -> sectext = opt_comp q4 c_S) /\
-    (sub_second P = true ->
-       (r3 = 0 /\ sectext = []) \/
-       (r3 <> 0 /\ exists ds, sectext = dec (Z.abs q4) ++ [c_dot] ++ ds ++ [c_S] /\ all_digits ds = true /\
-           (1 <= length ds <= frac_digits P)%nat /\ dec_value ds * p10 (frac_digits P - length ds) = Z.abs r4)).
-Proof.
-  intros HR Hc Hnz H32. cbv zeta.
-  assert (Hc64 : -9223372036854775808 <= c <= 9223372036854775807).
-  { apply fits_iff in Hc. destruct HR as [HR | HR]; rewrite HR in Hc; unfold tmin, tmax, half in Hc; cbn [is_signed] in Hc; lia. }
-  pose proof (dur_facts P c Hc64) as F. cbv zeta in F.
-  set (u1 := unit_ticks P 86400) in *. set (u2 := unit_ticks P 3600) in *. set (u3 := unit_ticks P 60) in *. set (u4 := unit_ticks P 1) in *.
-  set (q1 := Z.quot c u1) in *. set (r1 := Z.rem c u1) in *. set (q2 := Z.quot r1 u2) in *. set (r2 := Z.rem r1 u2) in *.
-  set (q3 := Z.quot r2 u3) in *. set (r3 := Z.rem r2 u3) in *. set (q4 := Z.quot r3 u4) in *. set (r4 := Z.rem r3 u4) in *.
-  destruct F as (Hu1 & B1 & B2 & B3 & B4 & Z2 & Z3 & Z4 & Hns & Hss & A1 & A2 & A3 & Hpos & Hneg & Hsum).
-  pose proof (rep_bounds R) as HB. apply fits_iff in Hc.
-  assert (HfR : forall x, Z.abs x <= Z.abs c -> (0 <= c -> 0 <= x) -> (c <= 0 -> x <= 0) -> fits R x = true).
-  { intros x H1 H2 H3. apply fits_iff. lia. }
-  assert (HdK : (1 <= dK P <= 19)%nat) by (destruct P; cbn; lia).
-  destruct (opt_comp_len q1 c_D (dK P) B1 ltac:(lia)) as [L1 L1'].
-  destruct (opt_comp_len q2 c_H 2 ltac:(change (p10 2) with 100; lia) ltac:(lia)) as [L2 L2'].
-  destruct (opt_comp_len q3 c_M 2 ltac:(change (p10 2) with 100; lia) ltac:(lia)) as [L3 L3'].
-  destruct (opt_comp_len q4 c_S 2 ltac:(change (p10 2) with 100; lia) ltac:(lia)) as [L4 L4'].
-  unfold dur_print. replace (c =? 0) with false by lia.
-  (* sign and 'P' *)
-  set (st0 := if c <? 0 then put 0 [] c_minus else Ok (0, [])).
-  assert (E0 : st0 = Ok (Z.of_nat (length (sign_text c)), sign_text c)).
-  { unfold st0, sign_text. destruct (c <? 0); reflexivity. }
-  rewrite E0, bind_ok. cbn [fst snd].
-  assert (Ls : (length (sign_text c) <= 1)%nat) by (unfold sign_text; destruct (c <? 0); cbn; lia).
-  unfold put at 1. replace ((0 <=? _) && (_ <? BufSize)) with true by (unfold BufSize; lia).
-  rewrite bind_ok. cbn [fst snd].
-  (* days *)
-  rewrite (pstep P R 86400 false c_D c); try assumption; try lia; try discriminate;
-    [| unfold unit_x; auto | apply fits_iff; exact Hc | fold u1; lia | fold u1; fold q1; lia].
-  fold u1 q1 r1. rewrite bind_ok.
-  set (pos1 := Z.of_nat (length (sign_text c)) + 1 + Z.of_nat (length (opt_comp q1 c_D))).
-  set (content1 := (sign_text c ++ [c_P]) ++ opt_comp q1 c_D).
-  assert (Hp1 : 0 <= pos1 <= Z.of_nat (dK P) + 3) by (unfold pos1; lia).
-  unfold dur_tail. fold u1 u2 u3 q1 r1 q2 r2 q3.
-  destruct (Z.eqb_spec r1 0) as [Er1|Er1]; cbn [negb].
-  - (* nothing but days *)
-    exists (if sub_second P then [] else opt_comp q4 c_S).
-    split; [unfold content1; rewrite <- !app_assoc, app_nil_r; reflexivity|].
-    assert (Hr3 : r3 = 0) by lia.
-    split; intros Hs; rewrite Hs; [reflexivity | left; split; [exact Hr3 | reflexivity]].
-  - unfold put at 1. replace ((0 <=? pos1) && (pos1 <? BufSize)) with true by (unfold BufSize; lia).
-    rewrite bind_ok. cbn [fst snd].
-    (* hours *)
-    rewrite (pstep P R 3600 false c_H r1); try assumption; try lia; try discriminate;
-      [| unfold unit_x; auto | apply HfR; lia | fold u2; fold q2; intros _; lia | fold u2; fold q2; lia].
-    fold u2 q2 r2. rewrite bind_ok.
-    (* minutes *)
-    rewrite (pstep P R 60 false c_M r2); try assumption; try lia; try discriminate;
-      [| unfold unit_x; auto | apply HfR; lia | fold u3; fold q3; intros _; lia | fold u3; fold q3; lia].
-    fold u3 q3 r3.
-    set (pos3 := pos1 + 1 + Z.of_nat (length (opt_comp q2 c_H)) + Z.of_nat (length (opt_comp q3 c_M))).
-    set (content3 := ((content1 ++ [c_T]) ++ opt_comp q2 c_H) ++ opt_comp q3 c_M).
-    assert (Hp3 : 0 <= pos3 <= Z.of_nat (dK P) + 10) by (unfold pos3; lia).
-    rewrite bind_ok.
-    destruct (sub_second P) eqn:Hsub.
-    + destruct (Hss eq_refl) as [Hu4 Hr3b].
-      assert (Hu4' : 1 <= u4) by (rewrite Hu4; destruct P; try discriminate Hsub; cbn; lia).
-      destruct (Z.eq_dec r3 0) as [Er3|Er3].
-      * rewrite Er3. rewrite sec_step_zero by assumption. rewrite bind_ok. cbn [snd].
-        exists []. split; [unfold content3, content1; rewrite <- !app_assoc, app_nil_r; reflexivity|].
-        split; [discriminate | intros _; left; split; [exact Er3 | reflexivity]].
-      * assert (Hw : Z.of_nat (dK P) + 10 + 3 + Z.of_nat (frac_digits P) <= 31) by (destruct P; try discriminate Hsub; cbn; lia).
-        destruct (sec_step_frac P R r3 pos3 content3 HR Hsub ltac:(apply HfR; lia) Er3 Hr3b ltac:(lia) ltac:(lia))
-          as (ds & Ef & Hds & Hl & Hv).
-        rewrite Ef, bind_ok. cbn [snd].
-        destruct (quot_rem_facts r3 u4 Hu4') as (_ & _ & _ & _ & _ & _ & _ & Aq & Ar).
-        fold q4 r4 in Aq, Ar. rewrite <- Hu4, <- Aq in Ef |- *. rewrite <- Hu4, <- Ar in Hv.
-        exists (dec (Z.abs q4) ++ [c_dot] ++ ds ++ [c_S]).
-        split; [unfold content3, content1; rewrite <- !app_assoc; reflexivity|].
-        split; [discriminate | intros _; right; split; [exact Er3|]]. exists ds. auto.
-    + rewrite (pstep P R 1 true c_S r3); try assumption; try lia; try discriminate;
-        [| unfold unit_x; auto | apply HfR; lia | fold u4; fold r4; intros _; apply Hns; reflexivity
-         | fold u4; fold q4; intros _; lia | fold u4; fold q4; lia].
-      fold u4 q4. rewrite bind_ok. cbn [snd].
-      exists (opt_comp q4 c_S). split; [unfold content3, content1; rewrite <- !app_assoc; reflexivity|].
-      split; [reflexivity | discriminate].
-Qed.
+Definition hide (A : Prop) : Prop := A.
+Lemma unhide A : hide A -> A. Proof. exact (fun x => x). Qed.
+
+(* fold the hidden definitions back into the goal *)
+Ltac refold := repeat match goal with H : hide (_ = ?t) |- context [?t] => rewrite <- (unhide _ H) end.
+
